@@ -39,6 +39,9 @@ CHECKS["C18"] = dict(cat="proof", design="§3 C18",
 CHECKS["C10"] = dict(cat="proof", design="§3 C10",
     text="cyecca.util routines executed on symbolic matrices of bounded dimension: sqrt_covariance_predict (n=2,3): W' lower triangular and W'W^T + W W'^T = FP + PF^T + Q; sqrt_correct ((n_x,n_y) in (1,1),(2,1),(3,1)): Ss Ss^T = HPH^T + R, K S = P H^T, W+ W+^T = (I-KH)P, W+ lower triangular (fresh sqrt atoms reduced modulo y^2 = radicand); LDL^T/UDU^T (n<=4): reconstruction, unit triangular, D diagonal; rk4: exact for f cubic in t and the h-derivatives of one step at h=0 equal the total derivatives of the exact solution up to order 4 for a bivariate cubic f with symbolic coefficients and for a 2-d linear system.",
     note="trusted: CasADi SX/AD/QR/inverse, encoder (validated per run), z3. Real arithmetic; pivots/diagonals assumed non-zero. NOT decided: sqrt_correct with n_y >= 2 (one entry of the (2,2) case times out), n=1 for sqrt_covariance_predict (the routine raises for a scalar state; outside the range), larger dimensions than stated. rk4 constants within 2 ulp of p/q are read as p/q (stated).")
+CHECKS["C16"] = dict(cat="proof", design="§3 C16",
+    text="quadrotor model f, g_accel, g_gyro executed with all 39 parameters symbolic: q.q'=0 for every state; above ground without aerodynamic terms the net force/moment recovered from x' equal the per-rotor sum (thrust along body z at l_i(cos th_i, sin th_i, 0), reaction torque -CM dir_i T_i) plus gravity, and p' = R v; symmetric frame + quarter-weight rotors + level at rest => x' = 0; shipped defaults satisfy the symmetric-frame premises; free fall => accelerometer 0, gyro = body rate; equivariance under horizontal translation and yaw rotation on all branch cells; motor speed follows (cmd-om)/tau_up|down on its two cells and relaxes monotonically.",
+    note="trusted: CasADi SX/instruction API, encoder (validated per run), S^3 chart, formal (sin,cos) pairs, z3. Real arithmetic; m, J, tau, CT > 0.")
 CHECKS["C04"] = dict(cat="proof", design="§3 C04",
     text="Ad/ad/bracket of every group/algebra executed symbolically; (Ad_X y)^ = M(X) y^ M(X^-1), Ad homomorphism and inverse, ad = bracket = matrix commutator, antisymmetry, Jacobi, block-diagonal direct-sum ad, and Ad_exp(x) = expm(ad_x) in closed form (Rodrigues / Barfoot quartic) are proved per entry; wrong shapes and crashes of offered operations are violations.",
     note="trusted: as C01 plus the closed forms of expm(ad) and the theorem Ad_{exp A} = expm(ad_A) (used for SE_2(3)/Euler where exp ends in from_Matrix). Operations raising NotImplementedError are out of scope as the property states.")
